@@ -2,6 +2,19 @@
 
 package xmpp
 
-import "time"
+import (
+	"time"
+
+	"verif/hx"
+)
 
 func secs(n int64) time.Duration { return time.Duration(n) * time.Second }
+
+// thoroughBound is the deviation bound of checks whose quick tier explores only the default
+// schedule (sequential histories): the thorough tier also takes every single departure from it.
+func thoroughBound(n int) int {
+	if hx.Thorough() {
+		return n
+	}
+	return 0
+}
